@@ -210,7 +210,7 @@ theorem readPrefixedStringWithByte_append (H : Huff)
       appendPrefixedInt f0 p payload.length ++ payload = b :: tl →
       ∃ s1 s3, readPrefixedIntWithByte s b p = .ok payload.length s1 ∧
         ¬ (s1.lim ≥ 0 ∧ ((payload.length : Nat) : Int) > s1.lim) ∧
-        readFull { s1 with allocs := (payload.length, s1.data.length) :: s1.allocs } payload.length = .ok payload s3 ∧
+        readFull { s1 with allocs := (2 * min payload.length s1.data.length + 512, s1.data.length) :: s1.allocs } payload.length = .ok payload s3 ∧
         Adv s tl.length s3 ∧
         (∃ tl', appendPrefixedInt f0 p payload.length = b :: tl') := by
     intro f0 payload hf0 hpl henc
@@ -228,7 +228,7 @@ theorem readPrefixedStringWithByte_append (H : Huff)
       have hd1 : s1.data = payload ++ t := by rw [hadv.data, hdata']; simp
       have hl1 : (payload.length : Int) ≤ s1.lim := by rw [hadv.lim]; simp at hlim; omega
       obtain ⟨s3, hr3, hadv3, _⟩ := readFull_append payload t
-        { s1 with allocs := (payload.length, s1.data.length) :: s1.allocs } hadv.dead hadv.primed hd1 hl1
+        { s1 with allocs := (2 * min payload.length s1.data.length + 512, s1.data.length) :: s1.allocs } hadv.dead hadv.primed hd1 hl1
       refine ⟨s1, s3, hr, by omega, hr3, ?_, ?_⟩
       · have := Adv.trans hadv (show Adv s1 payload.length s3 from ⟨hadv3.data, hadv3.primed, hadv3.dead, hadv3.lim⟩)
         simpa using this
